@@ -1277,7 +1277,7 @@ func (w *responseWriter) WriteHeader(statusCode int) {
 		// We must await the end before we can write headers, which means we have to
 		// buffer the entire response.
 		w.buf = w.op.bufferPool.Get()
-		delegate = &limitWriter{buf: w.buf, limit: w.op.methodConf.maxMsgBufferBytes, rw: w}
+		delegate = &limitWriter{buf: w.buf, limit: w.op.methodConf.maxMsgBufferBytes, rw: w, isResponseBuffer: true}
 	} else {
 		// We can go ahead and flush headers now.
 		w.flushHeaders()
@@ -1997,9 +1997,17 @@ type limitWriter struct {
 	buf   *bytes.Buffer
 	limit uint32
 	rw    *responseWriter
+	// set when buf is the response writer's own buffer (rw.buf), which goes
+	// back to the pool as soon as the response head has been flushed
+	isResponseBuffer bool
 }
 
 func (l *limitWriter) Write(data []byte) (n int, err error) {
+	if l.isResponseBuffer && l.rw.buf != l.buf {
+		// The buffered response is already out (or given up) and the buffer
+		// has a new owner.
+		return 0, errFinalDataAlreadyWritten
+	}
 	length := l.buf.Len() + len(data)
 	if length > int(l.limit) {
 		err := bufferLimitError(int64(l.limit))
